@@ -512,6 +512,9 @@ func uses(v ssa.Value) []ssa.Instruction {
 }
 
 func typeName(t types.Type) string {
+	if t == nil {
+		return "?"
+	}
 	if p, ok := t.(*types.Pointer); ok {
 		t = p.Elem()
 	}
